@@ -32,8 +32,8 @@ ASSUMPTIONS = ["unit factors x_dim/f_dim are compared on tables whose products w
 TRUSTED = []
 
 K_VAL = 256        # value correspondence, in eps*max(|y_j|,|y_j+1|)*|pref|
-K_DER = 512        # derivative correspondence, in eps*max|y|/h^k*|pref|
-K_OVER = 128       # rounding-level overshoot / monotonicity slack of the oracle
+K_DER = 1024       # derivative correspondence, in eps*max|y|/h^k*|pref|
+K_OVER = 192       # rounding-level overshoot / monotonicity slack of the oracle
 K_TAY = 1024       # Taylor consistency of reported derivatives (sum-of-terms scale)
 K_2D = 64
 
@@ -78,7 +78,7 @@ def gen_xs(rng, N, kind):
         hs = [base * 10.0 ** rng.uniform(-1.5, 1.5) for _ in range(N - 1)]
     elif kind == "log":     # logarithmic grid (typical physics table)
         x = 10.0 ** rng.uniform(-6, 0)
-        r = 10.0 ** rng.uniform(0.01, 0.5)
+        r = 10.0 ** (rng.uniform(0.5, 12) / (N - 1))     # the whole grid spans at most 12 decades
         xs = [x * r ** i for i in range(N)]
         hs = None
     else:
@@ -411,7 +411,6 @@ def generate(tier, seed, ctx):
                 Q.append((rng.uniform(xs_s[0], xs_s[-1]), zy))
             if zx is not None and zy is not None:
                 Q.append((zx, zy))
-        Q = [(min(max(x, -INF), INF), y) for x, y in Q]
         rng.shuffle(Q)
         pref, mul = pick_pref(rng)
         R.append(req_2d("c01.eval2", tag_, xs, ys, F, xdim, ydim, fdim, pref, mul, Q))
@@ -784,7 +783,7 @@ def compare(rq, impl, model, ctx):
             out += (oracle_2d if two else oracle_1d)(P, vals, ctx)
     if tag(model) == "err" and tag(impl) == "err":
         ctx["nontrivial"].add((op, fam, "err", sizeclass(len(P["xs0"]))))
-    if not both:
+    if not both or any(math.isnan(v) or math.isinf(v) for v in vals):
         return fs + _dedup(out)
     tm = toks(model)
     pref_exact = Fraction(P["pref"]) * Fraction(P["mul"])
